@@ -15,8 +15,8 @@
      its value or the end is available would need a pending notifier that never runs, i.e. an unfair scheduler.
    - the step facts of the protocol (WaitStep.v), also for the futures park lists (C14).
    Not proved: the same composition for the spinning strategies (they re-check the condition themselves, there is
-   nothing to lose) and for the futures park lists (C14: known finding F14 lives there); fairness of the scheduler
-   and of the OS condition variable cannot be expressed. *)
+   nothing to lose); fairness of the scheduler and of the OS condition variable cannot be expressed.  The futures
+   park list of the consumers is Props/C14.v. *)
 From Coq Require Import NArith List Bool.
 Require Import MQ.Arith64 MQ.Arith64Facts MQ.Types MQ.State MQ.Model MQ.Exec MQ.Reach MQ.Ctl MQ.RecvDefs MQ.InvReg MQ.WinDefs MQ.WinRun
   MQ.WaitStep MQ.WakeDefs MQ.NpDefs MQ.WakeStepC MQ.InvWake.
